@@ -1062,7 +1062,13 @@ func (x *Exec) specCall(c *ast.CallExpr, env *SpecEnv) TV {
 		var ts []Term
 		var ss []*Sort
 		for i := range c.Args {
-			t := arg(i).V.(Term)
+			av := arg(i)
+			var t Term
+			if cv, ok := av.V.(ConstV); ok {
+				t = x.constToSort(cv, x.idxSort())
+			} else {
+				t = av.V.(Term)
+			}
 			ts = append(ts, t)
 			ss = append(ss, t.T)
 		}
@@ -1255,6 +1261,10 @@ func (x *Exec) pureApply(key string, sig *types.Signature, args []Value) Value {
 
 func (x *Exec) frameEnv(st *State) *SpecEnv {
 	env := &SpecEnv{x: x, vars: map[string]TV{}, st: st, old: x.entry}
+	// the receiver under the name the contract gives it (takes precedence over shadowing locals)
+	if x.topC != nil && x.topC.RecvName != "" && len(x.frames) > 0 && x.frames[0].recvTV != nil {
+		env.vars[x.topC.RecvName] = *x.frames[0].recvTV
+	}
 	if x.topC != nil {
 		env.lets = map[string]ast.Expr{}
 		for _, l := range x.topC.Lets {
